@@ -124,12 +124,14 @@ def _run_pass(c, op, form, **kw):
     return c
 
 
-def h_pass(env, spec, n_qubits, op, form, remove_qubits=False, canary=False):
+def h_pass(env, spec, n_qubits, op, form, remove_qubits=False, canary=False, max_cycles=None):
     c, _ = build(env, spec, n_qubits)
     g0 = CU.gate_tuples(c)
     kw = {}
     if op == "simplify":
         kw = dict(param_threshold=1e-9, remove_qubits=remove_qubits)
+        if max_cycles is not None:
+            kw["max_cycles"] = max_cycles       # documented option: any number of cycles (0 included) returns an equivalent circuit
     elif op == "remove_redundant_gates":
         kw = dict(remove_qubits=remove_qubits)
     out = _run_pass(c, op, form, **kw)
@@ -481,6 +483,11 @@ def shapes(tier, seed):
         sp = random_spec(rnd, qsel, rnd.randint(2, 4), 2, kinds=ROT1 + CROT + ("H", "CNOT", "X", "CZ"), p_concrete=0.1)
         op, form = rnd.choice(ops)
         add(f"pass/{op}/{form}/{pat}/{_nm(sp)}", h_pass, dict(spec=sp, n_qubits=None, op=op, form=form), policy=pol, max_paths=400)
+    for mc_ in (0, 1, 2):
+        for form_ in ("function", "method"):
+            for j_ in (0, 3, 8):
+                add(f"pass/simplify/{form_}/max_cycles={mc_}/{_nm(core_pass[j_])}", h_pass,
+                    dict(spec=core_pass[j_], n_qubits=None, op="simplify", form=form_, max_cycles=mc_), policy=pol, max_paths=400)
     add("canary/pass/merge", h_pass, dict(spec=core_pass[2], n_qubits=None, op="merge_rotations", form="function", canary=True),
         policy=pol, canary=True)
     add("canary/pass/redundant", h_pass, dict(spec=core_pass[7], n_qubits=None, op="remove_redundant_gates", form="function", canary=True),
